@@ -67,6 +67,9 @@ def analyse(doc, schema):
                     return True
         return False
 
+    def conditional(node) -> bool:
+        return any(d.name.value in ("skip", "include") for d in (node.directives or ()))
+
     def mixins_of(node) -> List[str]:
         out = []
         for d in node.directives or ():
@@ -95,6 +98,8 @@ def analyse(doc, schema):
                     if s.selection_set is not None:
                         visit(s.selection_set, path + (key,), ft, True, None, stack)
                 elif isinstance(s, InlineFragmentNode):
+                    if conditional(s):
+                        active = False  # whatever is spread inside a conditional fragment cannot be a base class (its fields may be absent)
                     if s.type_condition is None or s.type_condition.name.value == t.name:
                         visit(s.selection_set, path, t, active, filt, stack)
                     else:
@@ -109,7 +114,7 @@ def analyse(doc, schema):
                         continue
                     f = frags[name]
                     ft = schema.type_map[f.type_condition.name.value]
-                    qualifies = (active and ft.name == t.name and not has_inline(f.selection_set)
+                    qualifies = (active and not conditional(s) and ft.name == t.name and not has_inline(f.selection_set)
                                  and (isinstance(t, GraphQLObjectType) or not refining(selset, t.name)))
                     if qualifies and path:
                         obligations.append((op.name.value, path, name, sorted(filt) if filt else None))
@@ -332,8 +337,8 @@ def worker(case: Dict[str, Any]) -> CaseResult:
                                     for c_ in classes_for_path(fcls, path + (key,)):
                                         allowed[m_].add(c_)
                         fvisit(s_.selection_set, path + (key,), _gnt(t.fields[s_.name.value].type))
-                    elif isinstance(s_, _I):
-                        frag_field_mixins_ok = False  # per-type classes inside a fragment: exclusivity not decidable from here
+                    elif not isinstance(s_, _F):
+                        frag_field_mixins_ok = False  # inline fragments / spreads inside a fragment definition: exclusivity not decidable from here
             fvisit(fdef.selection_set, (), schema_ref.type_map[fdef.type_condition.name.value])
         sites_complete = (frag_field_mixins_ok and all(root_classes.get(op) is not None for op, _, _, _ in mixin_sites)
                           and all(d for _, _, _, d in mixin_sites))
